@@ -247,6 +247,7 @@ class Gen:
             stmts.append(("decl", x, e))
             env[x] = t
         self.protected = set()
+        self.loop_depth = 0
         budget = r.randint(1, 2) if simple else r.randint(3, 7)
         body, env, live = self.block(env, 0, budget, top=True)
         stmts += body
@@ -339,8 +340,9 @@ class Gen:
         for a in atoms:
             if a == I or a == O:
                 if depth > 0 and r.random() < 0.4:
-                    self.stat("int-add")
-                    return ("add", self.expr(r.choice([INT, BOOL, INT]), env, depth - 1), self.expr(INT, env, depth - 1))
+                    op = r.choice(["add", "add", "sub"])
+                    self.stat("int-" + op)
+                    return (op, self.expr(r.choice([INT, BOOL, INT]), env, depth - 1), self.expr(INT, env, depth - 1))
                 if not avoid_lit:
                     return ("intLit", r.choice([0, 1, 2, 3, 7, -3]))
                 return ("add", ("intLit", r.choice([0, 1])), ("intLit", 0))
@@ -379,10 +381,14 @@ class Gen:
         k = r.random()
         if k < 0.3 or depth <= 0:
             return ("boolLit", r.random() < 0.5)
-        if k < 0.55:
+        if k < 0.45:
             ints = [x for x, t in env.items() if t == INT]
             if len(ints) >= 1:
                 return ("eq", ("var", r.choice(ints)), self.expr(INT, env, depth - 1, avoid_lit=True))
+        if k < 0.55:
+            self.stat("lt")
+            t = r.choice([INT, INT, STR])
+            return ("lt", self.expr(t, env, depth - 1), self.expr(t, env, depth - 1))
         if k < 0.75:
             c = self.narrow_cond(env)
             if c is not None:
@@ -413,6 +419,8 @@ class Gen:
         for x, t in env.items():
             if N in t and len(t) > 1:
                 opts.append(("none", x))
+                if all(a == N or isinstance(a, tuple) for a in t) and not (self.self_cls is not None and x == 0):
+                    opts.append(("truth", x))
             if t == OBJ:
                 opts.append(("none", x))
             for a in t:
@@ -428,6 +436,12 @@ class Gen:
         o = r.choice(opts)
         x = o[1]
         t = env[x]
+        if o[0] == "truth":
+            # `if x:` — the true branch loses None, the false branch keeps the whole type
+            e1 = dict(env)
+            e1[x] = tuple(a for a in t if a != N)
+            self.stat("narrow-truthiness")
+            return (("var", x), e1, dict(env))
         if o[0] == "none":
             neg = r.random() < 0.5
             yes = (N,)
@@ -549,6 +563,12 @@ class Gen:
                 else:
                     env = self.reset_assigned(ee_, tb + eb)
                     self.stat("guard-return")
+            elif 0.2 <= k < 0.27 and self.loop_depth > 0 and depth < 4:
+                j = self.jump_if(env, depth)
+                if j is None:
+                    continue
+                out.append(j[0])
+                env = j[1]
             elif k < 0.30 and depth < 2 and self.self_cls is None:
                 stm = self.loop(env, depth)
                 out += stm
@@ -600,6 +620,24 @@ class Gen:
                 out += self.uses(x, env[x], env)
         return out, env, True
 
+    def jump_if(self, env, depth):
+        """`if <cond>: … break|continue` — what follows sees the negated condition; (statement, env after) or None"""
+        r = self.r
+        c = self.compound_cond(env)
+        if c is None or c[1] is None or c[2] is None:
+            ints = [x for x, t in env.items() if t == INT and x not in self.protected]
+            if not ints:
+                return None
+            c = (("lt", ("var", r.choice(ints)), ("intLit", r.choice([0, 1, 2]))), dict(env), dict(env))
+        cond, et, ef = c
+        narrowed = [x for x in env if et.get(x) != env[x]]
+        tb = [self.new_probe(("intLit", depth + 1))]
+        for x in narrowed[:1]:
+            tb += self.uses(x, et[x], et)
+        jump = r.choice(["brk", "cont"])
+        self.stat("break" if jump == "brk" else "continue")
+        return ("ite", cond, seq(tb + [(jump,)]), ("pass",)), ef
+
     def pick_subtype(self, t):
         r = self.r
         if len(t) > 1 and r.random() < 0.6:
@@ -628,7 +666,7 @@ class Gen:
         env = dict(env)
         env[i] = INT
         env[lim] = INT
-        counter = ("not", ("eq", ("var", i), ("var", lim)))
+        counter = ("lt", ("var", i), ("var", lim)) if r.random() < 0.7 else ("not", ("eq", ("var", i), ("var", lim)))
         # inside the body every local that the body assigns has its declared type (the back edge widens it);
         # generate the body first with everything reset, then keep it.
         base_env = {x: self.decl[x] for x in env}
@@ -652,7 +690,14 @@ class Gen:
             head = self.uses(x, et[x], et)
         else:
             head = []
+        self.loop_depth += 1
+        if r.random() < 0.35:
+            j = self.jump_if(et, depth + 1)
+            if j is not None:
+                head = head + [j[0]]
+                et = j[1]
         body, _, live = self.block(et, depth + 1, r.randint(1, 3))
+        self.loop_depth -= 1
         if not live:
             post = []
         inc = ("assign", i, ("add", ("var", i), ("intLit", 1)))
@@ -736,7 +781,7 @@ def map_expr(e, f):
         r = (t, e[1], [map_expr(a, f) for a in e[2]])
     elif t == "not":
         r = (t, map_expr(e[1], f))
-    elif t in ("and", "or", "eq", "add"):
+    elif t in ("and", "or", "eq", "add", "sub", "lt"):
         r = (t, map_expr(e[1], f), map_expr(e[2], f))
     elif t == "probe":
         r = (t, e[1], map_expr(e[2], f))
